@@ -738,6 +738,8 @@ def run(ctx):
             extra_oracles.univariate_constant_history(ctx)
             from .. import extra_oracles2
             extra_oracles2.retention(ctx)
+            extra_oracles2.uni_alias(ctx)
+            extra_oracles2.kde_long(ctx)
         except Exception as ex:
             ctx.obligation('oracle:extra:raised', False, 'correspondence', repr(ex))
             ctx.violation('oracle:extra:raised:' + type(ex).__name__, 'extra oracle raised ' + repr(ex), {'repro': '# see tools/vf/extra_oracles.py'})
